@@ -168,3 +168,14 @@ pub mod ext {
         }
     }
 }
+
+/// Stand-ins for the external crates named by x-rust-type extensions in C15's macro-expansion crate (this crate is
+/// imported under several names there); only their paths have to resolve.
+pub mod sub {
+    #[derive(Debug, Clone, Default, serde::Serialize, serde::Deserialize)]
+    pub struct Thing;
+}
+#[derive(Debug, Clone, Default, serde::Serialize, serde::Deserialize)]
+pub struct Other2;
+#[derive(Debug, Clone, Default, serde::Serialize, serde::Deserialize)]
+pub struct Hh;
